@@ -29,6 +29,9 @@ type PState struct {
 	fcell map[fieldKey]ssa.Value   // (local literal, field) -> canonical value last stored
 	Flags uint64                   // rule-defined event bits (never pruned)
 	Trace string                   // rule-defined event trace (part of the state identity)
+	// defers: function literals registered with `defer` on this path (only when the
+	// explorer inlines deferred closures), in registration order
+	defers []*ssa.Defer
 }
 
 type fieldKey struct {
@@ -43,6 +46,9 @@ func newPState() *PState {
 func (s *PState) clone() *PState {
 	n := &PState{env: make(map[ssa.Value]Tri, len(s.env)), alias: make(map[ssa.Value]ssa.Value, len(s.alias)),
 		cell: make(map[*ssa.Alloc]ssa.Value, len(s.cell)), tuple: make(map[ssa.Value][]Tri, len(s.tuple)), fcell: make(map[fieldKey]ssa.Value, len(s.fcell)), Flags: s.Flags, Trace: s.Trace}
+	if len(s.defers) > 0 {
+		n.defers = append([]*ssa.Defer(nil), s.defers...)
+	}
 	for k, v := range s.fcell {
 		n.fcell[k] = v
 	}
@@ -236,6 +242,13 @@ type Explorer struct {
 	// Keep lists values whose facts must survive liveness pruning (they are queried by the rule).
 	Keep map[ssa.Value]bool
 
+	// InlineDefers: a function literal registered with `defer` is explored, at the point where
+	// the deferred calls run, in the context of the path (flags, trace, and what is known about
+	// the variables it captures, e.g. the named error result). Its events are seen by the same
+	// hooks. NewChild builds the explorer for the literal (default: same hooks as this one).
+	InlineDefers bool
+	NewChild     func(fn *ssa.Function) *Explorer
+
 	MaxStates int
 	States    int
 	Exceeded  bool
@@ -248,6 +261,8 @@ type Explorer struct {
 	seen     map[string]bool
 	work     []pwork
 	prepared bool
+	// seedLoads: facts about loads of captured variables, re-applied when the load executes
+	seedLoads map[ssa.Value]Tri
 }
 
 type pwork struct {
@@ -344,7 +359,11 @@ func (e *Explorer) key(b *ssa.BasicBlock, idx int, st *PState) string {
 		parts = append(parts, s)
 	}
 	sort.Strings(parts)
-	return strconv.Itoa(b.Index) + "." + strconv.Itoa(idx) + "|" + strconv.FormatUint(st.Flags, 16) + "|" + st.Trace + "|" + strings.Join(parts, ";")
+	dk := ""
+	for _, d := range st.defers {
+		dk += "d" + strconv.Itoa(int(d.Pos())) + ","
+	}
+	return strconv.Itoa(b.Index) + "." + strconv.Itoa(idx) + "|" + strconv.FormatUint(st.Flags, 16) + "|" + st.Trace + "|" + dk + "|" + strings.Join(parts, ";")
 }
 
 // liveAt: is value v live on entry to block b? For instruction-defined values this is SSA
@@ -522,6 +541,9 @@ func (e *Explorer) execBlock(b *ssa.BasicBlock, start int, st *PState) {
 		}
 		if v, ok := in.(ssa.Value); ok {
 			e.redefine(st, v)
+			if t, ok := e.seedLoads[v]; ok {
+				st.env[v] = t
+			}
 		}
 		switch x := in.(type) {
 		case *ssa.Store:
@@ -597,6 +619,28 @@ func (e *Explorer) execBlock(b *ssa.BasicBlock, start int, st *PState) {
 					}
 					return
 				}
+			}
+		case *ssa.Defer:
+			if e.InlineDefers {
+				if _, isLit := deferredLiteral(x); isLit {
+					st.defers = append(st.defers, x)
+				}
+			}
+		case *ssa.RunDefers:
+			if e.InlineDefers && len(st.defers) > 0 {
+				states := []*PState{st}
+				for k := len(st.defers) - 1; k >= 0 && !e.Exceeded; k-- {
+					var next []*PState
+					for _, cur := range states {
+						next = append(next, e.runDeferred(st.defers[k], cur)...)
+					}
+					states = next
+				}
+				for _, ns := range states {
+					ns.defers = nil
+					e.push(b, i+1, ns)
+				}
+				return
 			}
 		case *ssa.If:
 			e.branch(b, x, st)
@@ -708,6 +752,123 @@ func (e *Explorer) edge(from, to *ssa.BasicBlock, st *PState) {
 	e.push(to, 0, ns)
 }
 
+// deferredLiteral: the function literal a defer statement registers, with its bindings.
+func deferredLiteral(d *ssa.Defer) (*ssa.MakeClosure, bool) {
+	if d.Call.IsInvoke() {
+		return nil, false
+	}
+	switch v := d.Call.Value.(type) {
+	case *ssa.MakeClosure:
+		if f, ok := v.Fn.(*ssa.Function); ok && f.Blocks != nil {
+			return v, true
+		}
+	case *ssa.Function:
+		if v.Parent() != nil && v.Blocks != nil {
+			return nil, true // literal without captured variables
+		}
+	}
+	return nil, false
+}
+
+// runDeferred explores the deferred function literal in the context of st and returns the
+// states in which the enclosing function continues (flags and trace as left by the literal).
+func (e *Explorer) runDeferred(d *ssa.Defer, st *PState) []*PState {
+	mc, _ := deferredLiteral(d)
+	var fn *ssa.Function
+	if mc != nil {
+		fn = mc.Fn.(*ssa.Function)
+	} else {
+		fn = d.Call.Value.(*ssa.Function)
+	}
+	var child *Explorer
+	if e.NewChild != nil {
+		child = e.NewChild(fn)
+	} else {
+		child = &Explorer{Fn: fn, OnInstr: e.OnInstr, Outcomes: e.Outcomes, LookupOutcomes: e.LookupOutcomes, OnEdge: e.OnEdge, EdgeFilter: e.EdgeFilter}
+	}
+	child.InlineDefers = true
+	if child.Keep == nil {
+		child.Keep = map[ssa.Value]bool{}
+	}
+	child.MaxStates = e.MaxStates
+	init := newPState()
+	init.Flags, init.Trace = st.Flags, st.Trace
+	if mc != nil {
+		for i, fv := range fn.FreeVars {
+			if i >= len(mc.Bindings) || fv.Referrers() == nil {
+				continue
+			}
+			t := TriUnknown
+			isCell := false
+			if al, ok := mc.Bindings[i].(*ssa.Alloc); ok {
+				isCell = true
+				if c, ok := st.cell[al]; ok && !e.noTrack[al] {
+					t = st.Eval(c)
+				}
+			} else {
+				t = st.Eval(mc.Bindings[i])
+			}
+			if t == TriUnknown {
+				continue
+			}
+			if !isCell {
+				init.env[fv] = t
+				child.Keep[fv] = true
+				continue
+			}
+			for _, r := range *fv.Referrers() {
+				if u, ok := r.(*ssa.UnOp); ok && u.Op == token.MUL && u.X == ssa.Value(fv) {
+					init.env[u] = t
+					child.Keep[u] = true
+				}
+			}
+		}
+	}
+	type res struct {
+		flags uint64
+		trace string
+	}
+	seen := map[res]bool{}
+	var outs []*PState
+	inner := child.OnReturn
+	child.OnReturn = func(r *ssa.Return, cst *PState) {
+		if inner != nil {
+			inner(r, cst)
+		}
+		k := res{cst.Flags, cst.Trace}
+		if seen[k] {
+			return
+		}
+		seen[k] = true
+		ns := st.clone()
+		ns.Flags, ns.Trace = cst.Flags, cst.Trace
+		outs = append(outs, ns)
+	}
+	child.prepare()
+	// facts seeded for loads must not be dropped when the load instruction (re)defines its value
+	seeded := init.clone()
+	base := child.OnInstr
+	child.OnInstr = func(in ssa.Instruction, cst *PState) bool {
+		if base != nil && !base(in, cst) {
+			return false
+		}
+		return true
+	}
+	child.seedLoads = seeded.env
+	if len(fn.Blocks) > 0 {
+		child.RunFrom(fn.Blocks[0], 0, init)
+	}
+	if child.Exceeded {
+		e.Exceeded = true
+	}
+	e.States += child.States
+	if len(outs) == 0 {
+		// the literal never returns normally (panics): the function does not continue
+		return nil
+	}
+	return outs
+}
+
 // ---- function summaries -------------------------------------------------------------
 
 // RetOutcome is one abstract way a function returns.
@@ -748,6 +909,8 @@ type Summarizer struct {
 	OnEdge func(from, to *ssa.BasicBlock, st *PState)
 	// ClearFlagsOnReturn drops the (function-local) flags from return outcomes.
 	ClearFlagsOnReturn bool
+	// InlineDefers: explorers created by the summarizer run deferred function literals in context.
+	InlineDefers bool
 
 	memo     map[*ssa.Function][]RetOutcome
 	inFlight map[*ssa.Function]bool
@@ -857,6 +1020,10 @@ func (s *Summarizer) Explorer(fn *ssa.Function) *Explorer {
 	ex.EdgeFilter = s.EdgeFilter
 	ex.OnEdge = s.OnEdge
 	ex.LookupOutcomes = s.LookupOutcomes
+	if s.InlineDefers {
+		ex.InlineDefers = true
+		ex.NewChild = func(lit *ssa.Function) *Explorer { return s.Explorer(lit) }
+	}
 	return ex
 }
 
